@@ -30,7 +30,7 @@ RULE = ("seeded random ASTs over + - * / (strings) and + - * / min max consumpti
         "sub-expressions, large values and non-dyadic rationals. distinct = canonical program JSON; non-trivial = "
         ">=2 binary operators and >=1 round compared with a discriminating bound")
 PAIRS = [f"pair:{p}{s}{c}" for p in fm.BINOPS for s in "LR" for c in fm.BINOPS]
-REQUIRED_BUCKETS = ["mode:string", "mode:builder", "mode:api", "mode:api3", "redundant-parens", "same-engine-twice",
+REQUIRED_BUCKETS = ["api-sub-expression-object-used-in-two-expressions", "mode:string", "mode:builder", "mode:api", "mode:api3", "redundant-parens", "same-engine-twice",
                     "api-min-max", "api-consumption-production", "api-constant", "subexpression-zero", "mode:builderx",
                     "builder-clip-step", "inputs-begin-at-different-times",
                     "distinct-engines-with-the-same-name", "mode:pool", "api-nested-builds",
@@ -59,6 +59,8 @@ def gen(rng: Any, tier: str, i: int) -> Any:
         prog["src"] = fm.to_str(ast, rng)
     if mode == "api" and rng.random() < 0.4:
         prog["nest"] = True
+    if mode == "api" and rng.random() < 0.3:
+        prog["reuse"] = rng.choice([1, 2, 3])  # sub-expression objects are operands of other expressions as well
     vecs = []
     for _ in range(8):
         r = rng.random()
@@ -210,6 +212,8 @@ def check(prog: dict[str, Any], rec: Any) -> None:
         rec.bucket("builder-clip-step")
     if prog.get("nest"):
         rec.bucket("api-nested-builds")
+    if prog.get("reuse"):
+        rec.bucket("api-sub-expression-object-used-in-two-expressions")
     if prog.get("prelude"):
         rec.bucket("inputs-begin-at-different-times")
     if prog.get("leaf_names") and len(set(prog["leaf_names"][i] for i in set(lv))) < len(set(lv)):
